@@ -632,6 +632,19 @@ class StoreRun:
                 out.append((kind, ["list_coolers raised %s: %s" % (type(e).__name__, str(e)[:120])]))
             if quick:
                 return out
+            if self.cur_op.get("cli") and not out:
+                # `cooler ls` prints exactly the listed URIs
+                try:
+                    from click.testing import CliRunner
+                    from cooler.cli import cli as _cli
+                    r = CliRunner().invoke(_cli, ["ls", fpath], catch_exceptions=False)
+                    lines = [ln for ln in (r.output or "").splitlines() if ln.strip()]
+                    if r.exit_code != 0 or lines != [fpath + "::" + p for p in want]:
+                        out.append(("O-list-cli", ["`cooler ls` printed %r, model %r" % (lines, want)]))
+                    else:
+                        self.stat("cli-ls-verified")
+                except Exception as e:
+                    out.append(("O-list-cli", ["`cooler ls` raised %s" % type(e).__name__]))
             probes = []
             for p, n in fs.walk(fid):
                 if n is None:
@@ -833,10 +846,14 @@ class StoreRun:
                         raise Skip("copy into a populated root not generated")
                     cp = src_new.deepcopy()
                     self._retag(cp, "C15")
-                    # children of the source (resolved: H5Ocopy follows the named link)
-                    for cname, l in list(cp.children.items()):
+                    # children of the source are copied one H5Ocopy call each: object identity
+                    # shared between two top-level children is not preserved
+                    # (resolved: H5Ocopy follows the named link)
+                    for cname, l in list(src_new.children.items()):
                         if l[0] == "h":
-                            droot.children[cname] = l
+                            c1 = l[1].deepcopy()
+                            self._retag(c1, "C15")
+                            droot.children[cname] = ("h", c1)
                         else:
                             tgt = new.lookup(sf, sp.rstrip("/") + "/" + cname)
                             if tgt is None:
@@ -862,9 +879,22 @@ class StoreRun:
         for f_ in new.files:
             if new.has_cycle(f_):
                 raise Skip("operation would create a link cycle")
-        fn = {"cp": lambda: fileops.cp(suri, duri, overwrite=overwrite),
-              "mv": lambda: fileops.mv(suri, duri, overwrite=overwrite),
-              "ln": lambda: fileops.ln(suri, duri, soft=soft, overwrite=overwrite)}[kind]
+        if op.get("cli"):
+            from click.testing import CliRunner
+            from cooler.cli import cli as _cli
+
+            args = [kind] + (["--overwrite"] if overwrite else []) + (["--soft"] if kind == "ln" and soft else []) \
+                + [suri, duri]
+
+            def fn():
+                r = CliRunner().invoke(_cli, args, catch_exceptions=False)
+                if r.exit_code != 0:
+                    raise RuntimeError("cli exit %s: %s" % (r.exit_code, (r.output or "")[-200:]))
+            self.stat("fileop-via-cli")
+        else:
+            fn = {"cp": lambda: fileops.cp(suri, duri, overwrite=overwrite),
+                  "mv": lambda: fileops.mv(suri, duri, overwrite=overwrite),
+                  "ln": lambda: fileops.ln(suri, duri, soft=soft, overwrite=overwrite)}[kind]
         self._arm_open_fault(None)
         self._arm_snapshots(None)
         exc, _ = self._call(fn, None)
@@ -1107,8 +1137,25 @@ def _op_merge(self, op):
     held_before = dest_before is not None and dest_before.kind == "group" and dest_before.coll is not None
     self._arm_open_fault(fault)
     self._arm_snapshots(fid)
+    if op.get("cli"):
+        from click.testing import CliRunner
+        from cooler.cli import cli as _cli
+
+        args = ["merge", "-c", str(op["mergebuf"])] + (["--append"] if mode == "a" else [])
+        for col in (op.get("columns") or []):
+            args += ["--field", col + (":agg=" + agg[col] if col in agg else "")]
+        args += [uri] + uris
+
+        def call():
+            r = CliRunner().invoke(_cli, args, catch_exceptions=False)
+            if r.exit_code != 0:
+                raise RuntimeError("cli exit %s: %s" % (r.exit_code, (r.output or "")[-200:]))
+        self.stat("merge-via-cli")
+    else:
+        def call():
+            cooler.merge_coolers(uri, uris, **kw)
     try:
-        exc, tracer = self._call(lambda: cooler.merge_coolers(uri, uris, **kw), fault)
+        exc, tracer = self._call(call, fault)
     finally:
         if undo:
             undo()
@@ -1654,6 +1701,18 @@ def _op_rename(self, op):
     n2.prop = "C18"
     n2.verified = False
     self.live[key] = (clr, n2.id, n2.coll)
+    # cells of a single-cell file share one chromosome table: renaming through one cell renames
+    # all of them; the only consistent outcome is that every cell then uses the new names
+    siblings = []
+    root_new = fs_new.files[fid]
+    canon = self.fs.canonical(fid, path) or path
+    if root_new.tag == "scool" and canon.startswith("/cells/"):
+        cg = root_new.children.get("cells")
+        if cg is not None and cg[0] == "h":
+            for cname, l in cg[1].children.items():
+                if l[0] == "h" and l[1] is not n2 and isinstance(l[1].coll, Coll):
+                    siblings.append("/cells/" + cname)
+                    l[1].coll = INDET   # judged by the dedicated oracle below, not by O-read
     self._arm_open_fault(None)
     self._arm_snapshots(None)
     exc, tracer = self._call(lambda: cooler.rename_chroms(clr, rmap), None)
@@ -1685,6 +1744,22 @@ def _op_rename(self, op):
         self.violate("C18", "O-rename", errs)
     else:
         self.stat("rename-verified")
+    serrs = []
+    with warnings.catch_warnings():
+        warnings.simplefilter("ignore")
+        for sp in siblings:
+            try:
+                c = cooler.Cooler(uri_of(sp, self.fpath(fid)))
+                labels = sorted(set(str(x) for x in c.bins()[:]["chrom"]))
+                if not set(labels) <= set(c.chromnames):
+                    serrs.append("[rename through a scool cell] sibling cell %s: chromosome table says %r but its "
+                                 "bin labels are %r" % (sp, c.chromnames, labels))
+            except Exception as e:
+                serrs.append("[rename through a scool cell] sibling cell %s unreadable: %s" % (sp, type(e).__name__))
+    if serrs:
+        self.violate("C18", "O-rename-scool-siblings", serrs)
+    elif siblings:
+        self.stat("scool-siblings-consistent")
     self._resolve([fs_new], [fid], None, None, False)
     return exc, tracer
 
@@ -1859,3 +1934,69 @@ def _op_bigcreate(self, op):
 
 
 StoreRun.op_bigcreate = _op_bigcreate
+
+
+# ===========================================================================
+# `cooler cload pairs`: binning + unordered ingestion through the command line
+# ===========================================================================
+def _op_clipairs(self, op):
+    from click.testing import CliRunner
+    from cooler.cli import cli
+
+    fid, path, mode = op["file"], op["path"], op.get("mode", "a")
+    names, lengths, bm = self._layout(op)
+    if fid in self.fs.files and path != "/":
+        parent = "/" + "/".join(split(path)[:-1])
+        if self.fs.canonical(fid, parent, partial=True) is None:
+            raise Skip("destination parent behind an external link")
+    rec = op["records"]  # unique pixels with small counts
+    px = pixel_frame(rec, {"count": _dt("int32")}).sort_values(["bin1_id", "bin2_id"]).reset_index(drop=True)
+    exp = Coll(names, lengths, bm, px, op["symmetric"], None, None)
+    tag = "in%d" % self.opidx
+    txt = os.path.join(self.S, tag + ".pairs.txt")
+    chrom = bm["chrom"].values
+    start = bm["start"].values
+    end = bm["end"].values
+    with open(txt, "w") as f:
+        f.write("## pairs format v1.0\n")
+        for c1, p1, c2, p2 in op["lines"]:
+            f.write("r\t%s\t%d\t%s\t%d\t+\t-\n" % (names[c1], p1, names[c2], p2))
+    bed = os.path.join(self.S, tag + ".bins.bed")
+    with open(bed, "w") as f:
+        for c, s_, e_ in zip(chrom, start, end):
+            f.write("%s\t%d\t%d\n" % (names[c], s_, e_))
+    uri = uri_of(path, self.fpath(fid), op.get("slash", True))
+    args = ["cload", "pairs", "-c1", "2", "-p1", "3", "-c2", "4", "-p2", "5", "--chunksize", str(op["chunksize"]),
+            "--max-merge", str(op["max_merge"])]
+    if op.get("mergebuf"):
+        args += ["--mergebuf", str(op["mergebuf"])]
+    if not op["symmetric"]:
+        args.append("--no-symmetric-upper")
+    if mode == "a":
+        args.append("--append")
+    args += [bed, txt, uri]
+
+    def call():
+        r = CliRunner().invoke(cli, args, catch_exceptions=False)
+        if r.exit_code != 0:
+            raise RuntimeError("cli exit %s: %s" % (r.exit_code, (r.output or "")[-300:]))
+
+    fs_old = self.fs.clone()
+    dest_before = self.fs.lookup(fid, path) if fid in self.fs.files else None
+    held_before = dest_before is not None and dest_before.kind == "group" and dest_before.coll is not None
+    self._arm_open_fault(None)
+    self._arm_snapshots(fid)
+    exc, tracer = self._call(call, None)
+    left = sorted(glob.glob(os.path.join(self.S, "*.multi.cool")))
+    if left and exc is None:
+        self.violate("C06", "O-temp", ["temporary file(s) outlive a successful `cooler cload pairs`: %d" % len(left)])
+    for p in left + [txt]:
+        try:
+            os.remove(p)
+        except OSError:
+            pass
+    self._finish_producer(op, "C06", exc, exp, None, False, fs_old, fid, path, mode, held_before, early_refusal=True)
+    return exc, tracer
+
+
+StoreRun.op_clipairs = _op_clipairs
